@@ -348,7 +348,11 @@ func genCase(r *hx.Rand, tier string) *caseT {
 		case 15:
 			k.Prog = append(k.Prog, opT{K: hx.Pick(r, []string{"P", "Ws"}), Data: chunk()})
 		case 16, 17:
-			k.Prog = append(k.Prog, opT{K: "F"})
+			if !simple && r.Chance(1, 5) {
+				k.Prog = append(k.Prog, opT{K: hx.Pick(r, []string{"Hj", "Cx"})})
+			} else {
+				k.Prog = append(k.Prog, opT{K: "F"})
+			}
 		case 18, 19:
 			n := r.Range(0, 4)
 			var cs [][]byte
@@ -509,6 +513,11 @@ func fixedCases() []*caseT {
 			{K: "D", Key: "Cache-Control"}, {K: "H", Key: "X-Cache-Control", Vals: []string{"private"}}, {K: "B", Data: []byte("body")}}},
 		{Path: "/p", AE: gz, Opt: optT{MinSize: 1024}, Prog: []opT{ct, {K: "H", Key: "Cache-Control", Vals: []string{"no-store"}}, {K: "H", Key: "X-Early", Vals: []string{"original"}}, {K: "W", Code: 200},
 			{K: "D", Key: "Cache-Control"}, {K: "D", Key: "X-Early"}, {K: "H", Key: "X-Late", Vals: []string{"1"}}, {K: "B", Data: []byte("body")}}},
+		// a failed upgrade attempt answered over plain HTTP; a response written after the request context ended
+		{Path: "/p", AE: gz, Prog: []opT{{K: "Hj"}, ct, {K: "W", Code: 426}, {K: "B", Data: []byte("upgrade required")}}},
+		{Path: "/p", AE: gz, Opt: optT{MinSize: 64}, Prog: []opT{ct, {K: "B", Data: []byte("held back")}, {K: "Hj"}, {K: "B", Data: []byte(" and more")}}},
+		{Path: "/p", AE: gz, Prog: []opT{{K: "Cx"}, {K: "Js", Code: 504, S: "deadline exceeded"}}},
+		{Path: "/p", AE: gz, Opt: optT{MinSize: 1024}, Prog: []opT{ct, {K: "W", Code: 504}, {K: "B", Data: []byte("timeout")}, {K: "Cx"}}},
 		// trailers: announced on two Trailer lines and set while the body is held back; set before and after
 		// the commit; through http.TrailerPrefix next to an announced one
 		{Path: "/p", AE: gz, Prog: []opT{{K: "H", Key: "Trailer", Vals: []string{"X-T", "X-U"}}, {K: "B", Data: []byte("small body")}, {K: "H", Key: "X-T", Vals: []string{"late"}}, {K: "H", Key: "X-U", Vals: []string{"late-u"}}}},
